@@ -10,6 +10,7 @@ import (
 
 	"gonum.org/v1/gonum/blas"
 	"gonum.org/v1/gonum/internal/asm/f64"
+	"gonum.org/v1/gonum/internal/verifhook"
 )
 
 // Dgemm performs one of the matrix-matrix operations
@@ -167,13 +168,17 @@ func dgemmParallel(aTrans, bTrans bool, m, n, k int, a []float64, lda int, b []f
 	// wg is used to wait for all
 	var wg sync.WaitGroup
 	wg.Add(parBlocks)
+	defer verifhook.Emit("G", "GReturn", int64(parBlocks), 0, 0)
 	defer wg.Wait()
 
 	for i := 0; i < m; i += blockSize {
 		for j := 0; j < n; j += blockSize {
 			workerLimit <- struct{}{}
 			go func(i, j int) {
+				gid := verifhook.Actor("G")
+				verifhook.Emit(gid, "GStart", int64(i), int64(j), int64(cap(workerLimit)))
 				defer func() {
+					verifhook.Emit(gid, "GEnd", int64(i), int64(j), 0)
 					wg.Done()
 					<-workerLimit
 				}()
@@ -207,6 +212,7 @@ func dgemmParallel(aTrans, bTrans bool, m, n, k int, a []float64, lda int, b []f
 						bSub = sliceView64(b, ldb, k, j, lenk, lenj)
 					}
 					dgemmSerial(aTrans, bTrans, leni, lenj, lenk, aSub, lda, bSub, ldb, cSub, ldc, alpha)
+					verifhook.Emit(gid, "GStep", int64(i), int64(j), int64(k))
 				}
 			}(i, j)
 		}
